@@ -18,6 +18,7 @@ ENGINES = {
  "appmsg": ("harness/src/appmsg.rs (on harness/src/world.rs) + vlib/appmsgeng.py + vlib/check_C04.py + lean/Driver/AppMsgDrv.lean", "adversarial application messages crafted with OpenMLS directly (chosen pubkey/id/timestamp/kind/tags, cross-group wraps, replays, stale ex-member) delivered to a real MDK receiver on memory and SQLite; replayed on Model.AppMsg; oracle over the stored rows"),
  "mediaw": ("harness/src/codec.rs (media ops) + harness/src/mediaw.rs (on harness/src/world.rs) + vlib/mediaeng.py + vlib/check_C17.py + lean/Driver/MediaDrv.lean", "HKDF context / AAD correspondence over the real key derivation, and media histories on real MDK instances (encrypt, announce, commits, decrypt at members/non-members, tampers, group images) replayed on Model.MediaEpoch"),
  "wrap": ("harness/src/wrap.rs (on harness/src/world.rs) + vlib/wrapeng.py + vlib/check_wrap.py + lean/Driver/WrapDrv.lean", "second engine of C06 and C08: the outermost layer of process_message under hostile / malformed kind-445 wrapper events — three real MDK instances (memory, SQLite, custom window) holding 2-3 groups each, every single-field mutation (kind, created_at incl. boundary±1 against the observed clock, h tags, content, NIP-44 payloads sealed with a valid MAC around malformed buffers, re-signed or not), id rotations incl. onto another group's id and a rollback across a rotation; replayed on Model.Wrap; frame / routing / panic oracles"),
+ "ffi": ("harness/src/ffi.rs + vlib/ffieng.py + vlib/check_C06.py + lean/Driver/FfiDrv.lean + lean/MdkVerif/Model/Ffi.lean", "every #[uniffi::export] function of crates/mdk-uniffi called on real binding objects (sessions set up through the binding API) with every hostile class of every string / list / number / byte-vector argument under catch_unwind; parse-level outcome diffed against Model.Ffi; independent hex judge; no-panic / no-poisoned-mutex oracle"),
  "media": ("harness/src/codec.rs (media ops) + harness/src/world.rs + vlib/mediaeng.py", "HKDF context / AAD correspondence and epoch-hint histories"),
  "msgwin": ("harness/src/msgwin.rs (on harness/src/world.rs) + vlib/msgwineng.py + vlib/c02win.py + lean/Driver/MsgWinDrv.lean", "2-3 real MDK instances created with small out_of_order_tolerance / maximum_forward_distance / max_past_epochs, message bursts over several epochs offered in generated orders (inside, exactly at and just beyond each window, duplicates), replayed on Model.Ratchet (which predicts generations, OpenMLS verdicts, rows, records); oracle computed from the schedule and the three window sizes alone"),
 }
@@ -25,7 +26,7 @@ def main():
     claims = json.load(open(os.path.join(V, "tools", "claims.json")))
     engines = [{"name": "lean-model", "path": "lean/", "serves_properties": sorted(claims), "kind_free_text": "Lean 4 executable model, helper lemmas, property theorems (MdkVerif.Props.*), compiled driver mdkdrv"}]
     for name, (path, text) in ENGINES.items():
-        served = sorted(p for p, c in claims.items() if (c["engine"] == name or name in (c.get("more_engines", []) + c.get("extra_engines", []))) and p not in HOLD)
+        served = sorted(p for p, c in claims.items() if (name in c["engine"].split("+") or name in (c.get("more_engines", []) + c.get("extra_engines", []))) and p not in HOLD)
         if served:
             engines.append({"name": name, "path": path, "serves_properties": served, "kind_free_text": text})
     engines.append({"name": "translator", "path": "tools/gen_model.py", "serves_properties": sorted(claims), "kind_free_text": "regenerates lean/MdkVerif/Generated*.lean from /repo on every run"})
